@@ -257,7 +257,7 @@ def _eval_evolve(case):
     lo, hi, ncross = M.walk(m2_ref, origin, target, walls, ratios, a_of, order, method, g3)
     devs = [abs(float(mp.mpf(got) / r - 1)) for r in (lo, hi)]
     dev = min(devs)
-    tol = 1e-9 if span == "zero" else 2e-7
+    tol = 2e-7  # the code carries 6 printed digits in the three-loop constants
     res.info = {"max_rel_dev_evolve": dev if dev <= tol else 0.0}
     if not dev <= tol:
         # is it the linear-vs-squared confusion?  (m^2 multiplied by zeta instead of zeta^2)
@@ -365,14 +365,18 @@ def _eval_compute(case):
                 continue
             active = i + 4 <= nf_ref
             nf_target = i + 4 if active else i + 3
-            nf_cur = 3 + sum(1 for w in walls if w <= mu**2)
+            # the quark's own matching scale is no wall for its own mass: the fixed point is sought in the patch
+            # adjoining its threshold on the side of the coupling reference, formally continued
+            walls_i = list(walls)
+            walls_i[i] = 0.0 if active else math.inf
+            nf_cur = 3 + sum(1 for w in walls_i if w <= mu**2)
             if any(min(w, mq) < mu**2 <= max(w, mq) or min(w, mq) <= mu**2 < max(w, mq) for j, (w, mq) in enumerate(zip(walls, out)) if j != i and w != mq):
                 # the reference scale lies between another quark's mass and its matching scale: the statement does
                 # not say in which flavour-number scheme such an input is meant
                 nambiguous += 1
                 continue
             try:
-                lo, hi, ncross = M.walk(m**2, (mu**2, nf_cur), (float(out[i]), nf_target), walls, ratios, a_of, order, method, g3)
+                lo, hi, ncross = M.walk(m**2, (mu**2, nf_cur), (float(out[i]), nf_target), walls_i, ratios, a_of, order, method, g3)
             except Exception as e:  # noqa
                 res.fail("msbar_masses.compute/reference-walk-impossible", f"{where}: quark {q}: {type(e).__name__}: {e}")
                 continue
@@ -435,7 +439,7 @@ def run(ctx):
         "coupling of the upper theory at the matching scale; a_s is evaluated at xif2 * mu^2 (eko's convention for xif)",
         "a_s^(nf)(mu) itself is taken from eko's Couplings object built with the returned masses (scheme MSBAR, ratios*xif2)",
         "a quark whose reference scale lies between another quark's mass and that quark's matching scale is not checked for the fixed point (flavour scheme of the input not defined by the statement)",
-        f"fixed point tolerance {TOL_FIXED} relative on m; kernels 1e-8 (exact) / 1e-12 (expanded); decoupling jump 1e-9",
+        f"fixed point tolerance {TOL_FIXED} relative on m; kernels 1e-8 (exact) / 1e-12 (expanded); evolution across a matching scale 2e-7",
         "order-4 comparisons substitute eko's own gamma_m^(3) when (and only when) that explains a kernel mismatch; the "
         "mismatch is then reported under a signature naming gamma_qcd_as4",
     ]
